@@ -131,12 +131,16 @@ EncProgs ==
   UNION { {EncProg(kb, 1, nek, 3, 3, "prefix", <<"lo", "asc">>, "raw") : nek \in {MaxNek(kb), MaxNek(kb) + 1}} : kb \in {1, 4} }
 
 \* -- root manifest ---------------------------------------------------------------------
-RootShapes == { <<"dense", 1, "norm", "asc">>, <<"gap", 2, "raw", "rot">>, <<"ends", 2, "norm", "desc">>,
-                <<"gap", 3, "raw", "desc">> }      \* 3 blocks: the third has locale mask 0
+\* <<fdid layout, blocks, path style, insertion order, nnh>>; nnh = how files WITHOUT a name are stored: "flag" = in
+\* blocks that carry NO_NAME_HASH (no name-hash array), "plain" = in ordinary blocks (the array stays, hash 0) - with
+\* named = 0 that is a manifest whose header counts no named file although every block has a name-hash array
+RootShapes == { <<"dense", 1, "norm", "asc", "flag">>, <<"gap", 2, "raw", "rot", "flag">>, <<"ends", 2, "norm", "desc", "flag">>,
+                <<"gap", 3, "raw", "desc", "flag">>,      \* 3 blocks: the third has locale mask 0
+                <<"gap", 2, "norm", "rot", "plain">>, <<"dense", 3, "raw", "asc", "plain">> }
 NamedCounts(n) == {x \in {0, 1, 4, 5, 9, 10, n} : x <= n}
 RootProgs ==
   UNION { {[kind |-> "root", ver |-> ver, n |-> n, named |-> nm, lay |-> sh[1], blocks |-> sh[2], style |-> sh[3],
-            ord |-> sh[4], probes |-> ProbeSeq(8, n, sh[1], {nm - 1, nm})] : nm \in NamedCounts(n)} :
+            ord |-> sh[4], nnh |-> sh[5], probes |-> ProbeSeq(8, n, sh[1], {nm - 1, nm})] : nm \in NamedCounts(n)} :
           ver \in 1..4, n \in RootCounts \cup (IF Quick THEN {} ELSE {2, 17, 50, 98, 255, 256, 1000}), sh \in RootShapes }
 
 ChainProgs ==
